@@ -8,6 +8,7 @@ package main
 
 import (
 	"go/ast"
+	"go/constant"
 	"go/token"
 	"go/types"
 )
@@ -95,6 +96,18 @@ func (x *Exec) collectEffects(nodes ...ast.Node) loopEffects {
 		}
 		ast.Inspect(n, func(n ast.Node) bool {
 			switch s := n.(type) {
+			case *ast.IfStmt:
+				if tv, ok := info.Types[s.Cond]; ok && tv.Value != nil && tv.Value.Kind() == constant.Bool && !constant.BoolVal(tv.Value) {
+					// dead branch (constant false condition): only the else part counts
+					if s.Else != nil {
+						sub := x.collectEffects(s.Else)
+						if sub.any {
+							eff.any = true
+							eff.targets = append(eff.targets, sub.targets...)
+						}
+					}
+					return false
+				}
 			case *ast.AssignStmt:
 				for _, l := range s.Lhs {
 					store(l)
@@ -227,7 +240,9 @@ func (x *Exec) rootedAt(e ast.Expr, o types.Object) bool {
 }
 
 func (x *Exec) havocLoop(st *State, lc *LoopContract, ord int, pos token.Pos, nodes ...ast.Node) {
+	x.fieldAsg = nil
 	asg := x.assignedIn(nodes...)
+	fieldAsg := x.fieldAsg
 	pre := st.clone()
 	eff := x.collectEffects(nodes...)
 	// new allocation counter
@@ -251,6 +266,18 @@ func (x *Exec) havocLoop(st *State, lc *LoopContract, ord int, pos token.Pos, no
 			continue
 		}
 		ty := x.w.goTy(v.Type(), x.model.BV)
+		if whole := asg[o]; !whole && fieldAsg[o] != nil && ty.K == TStruct {
+			// only some fields are assigned: the others keep their values
+			cur := st.vars[o]
+			for fi := range fieldAsg[o] {
+				fty := ty.Struct.Fields[fi].Ty
+				ff := x.sym.Fresh(v.Name()+"_"+ty.Struct.Fields[fi].Name, x.w.sortOf(fty, x.model))
+				st.assume(x.typeInv(ff, fty, st.alloc))
+				cur = x.structSet(cur, ty, fi, ff)
+			}
+			st.vars[o] = cur
+			continue
+		}
 		f := x.sym.Fresh(v.Name(), x.w.sortOf(ty, x.model))
 		st.vars[o] = f
 		st.assume(x.typeInv(f, ty, st.alloc))
